@@ -335,6 +335,8 @@ def main(run):
         ktree.mk_config("A1", "bool", prompt=["y"], defaults=[{"v": ["y"], "c": ["y"]}]),
         {"k": "comment", "title": "between", "dep": ["y"]},
         ktree.mk_config("A2", "int", prompt=["y"], defaults=[{"v": ["c", "3"], "c": ["y"]}]),
+        # words inside string literals are not option names, whatever stands next to them
+        ktree.mk_config("A5", "string", prompt=["y"], defaults=[{"v": ["c", "one if two"], "c": ["y"]}, {"v": ["c", "depends on x"], "c": ["s", "A1"]}]),
         {"k": "if", "c": ["s", "A1"], "children": [ktree.mk_config("A3", "bool", prompt=["y"]), {"k": "comment", "title": "inside if", "dep": ["y"]}, ktree.mk_config("A4", "bool", prompt=["y"])]},
     ]
     bases = [{"prog": extra_prog, "ord": []}] + nav_programs() + [p for p in lattice.nest_lattice()[::6]] + [p for p in lattice.choice_lattice()[::40]] + ktree.generate(run.seed + 7100, 25 if tier == "quick" else 400)
